@@ -546,10 +546,59 @@ def rule_parse_failures(ctx, rid="R19.7"):
     return r
 
 
+def _options_eval(prog, f):
+    """parse_args evaluated by sa/tokeval.py with a stub argparse parser: '' | difference | None (outside the fragment)"""
+    import argparse
+    from ..tokeval import Ev, Undecided, PyRaise
+
+    class StubParser:
+        def __init__(self, ns):
+            self.ns, self.errors = ns, []
+
+        def parse_args(self, args=None):
+            return argparse.Namespace(**self.ns)
+
+        def error(self, message):
+            self.errors.append(message)
+            raise PyRaise("SystemExit", message)
+    try:
+        for output, fmt in (("plain", None), ("plain", "{error.message}"), ("plain", ""), ("pretty", None), ("pretty", "{error.message}"), ("pretty", "")):
+            ev = Ev(prog, fuel=5000)
+            sp = StubParser({"output": output, "error_format": fmt, "schema": "s.json", "instances": None, "validator": None, "base_uri": None})
+            ev.preset("cli", "parser", sp)
+            try:
+                res = ev.call_func(f, [["s.json"]], {})
+            except PyRaise as pr:
+                res = pr
+            if output == "pretty" and fmt == "":
+                continue        # an empty format with pretty output: either reading is defensible; not part of the table
+            if output == "pretty" and fmt is not None:
+                if not sp.errors:
+                    return "--error-format together with --output pretty is not rejected"
+                continue
+            if isinstance(res, PyRaise) or sp.errors:
+                return "--output %s with error format %r is rejected (reject)" % (output, fmt)
+            want = fmt if fmt is not None else ("{error.instance}: {error.message}\n" if output == "plain" else None)
+            if not isinstance(res, dict) or res.get("error_format") != want or res.get("output") != output:
+                return "--output %s with error format %r gives error_format %r (default expected exactly when plain and none given)" % (
+                    output, fmt, res.get("error_format") if isinstance(res, dict) else res)
+    except Undecided:
+        return None
+    return ""
+
+
 def rule_options(ctx, rid="R19.6"):
     prog = ctx.prog
     f = prog.func("cli.parse_args")
     r = ctx.rule(rid, "--error-format is rejected with non-plain output; the default format is installed only when none is given", floor=2)
+    sem = _options_eval(prog, f)
+    if sem is not None:
+        if sem == "":
+            r.ok(site(f), "non-plain output with --error-format -> parser.error (five option combinations evaluated, the empty format included)")
+            r.ok(site(f) + " [default]", "the default error format is installed exactly when output is plain and none was given; a given one is kept")
+        else:
+            r.fail("%s|%s" % (f.qual, "reject" if "reject" in sem else "default"), site(f), sem)
+        return r
     src = [norm(n) for n in walk_body(f) if isinstance(n, ast.If)]
     rej = [s for s in src if "!= 'plain'" in s.split(":")[0] and "error_format" in s.split(":")[0] and "parser.error" in s]
     dfl = [s for s in src if "== 'plain'" in s.split(":")[0] and "is None" in s.split(":")[0] and "arguments['error_format'] =" in s]
